@@ -762,9 +762,11 @@ class ErrorUnslicer(slicer.ScopedUnslicer):
 
 
 def truncate(s, limit):
+    # the limit applies to the UTF-8 encoded form, which is what is sent over
+    # the wire and what the receiving FailureConstraint measures
     assert limit > 3
-    if s and len(s) > limit:
-        s = s[:limit-3] + ".."
+    if s and len(six.ensure_binary(s)) > limit:
+        s = six.ensure_binary(s)[:limit-3].decode("utf-8", "ignore") + ".."
     return s
 
 # failures are sent as Copyables
@@ -830,7 +832,7 @@ class FailureSlicer(slicer.BaseSlicer):
             state['traceback'] = (state['traceback'][:700] +
                                   "\n\n-- TRACEBACK ELIDED --\n\n"
                                   + state['traceback'][-1200:])
-        state['traceback'] = six.ensure_binary(state['traceback'])
+        state['traceback'] = six.ensure_binary(truncate(state['traceback'], 2000))
 
         parents = obj.parents[:]
         for i,value in enumerate(parents):
